@@ -277,6 +277,107 @@ static void run_export(const char *spec)
 	free(ref); vbi_export_delete(e);
 }
 
+/* ------------------------------------------------------------------ html module (modelled) */
+static int html_font_ok(long long f) { return f == 0 || f == 1 || f == 2 || f == 3 || f == 4 || f == 5 || f == 7 || f == 16 || f == 33; }
+
+/* export the current page with module html; returns malloc'd data or NULL */
+static uint8_t *html_alloc(const char *gfx, int color, int header, int reveal, int font, int pgno, int subno, int screen, size_t *n)
+{
+	char spec[160], *err = NULL; vbi_export *e; void *d = NULL;
+	snprintf(spec, sizeof spec, "html,gfx_chr=%s,color=%d,header=%d,reveal=%d,creator=verif", gfx, color, header, reveal);
+	e = vbi_export_new(spec, &err);
+	if (!e) { free(err); return NULL; }
+	{ vbi_page saved = *pg;
+	  pg->font[0] = pg->font[1] = vbi_font_descriptors + font; pg->pgno = pgno; pg->subno = subno; pg->screen_color = screen;
+	  if (!vbi_export_alloc(e, &d, n, pg)) d = NULL;
+	  *pg = saved; }
+	vbi_export_delete(e);
+	return (uint8_t *) d;
+}
+
+static int has_sub(const uint8_t *d, size_t n, const char *t)
+{
+	size_t l = strlen(t), i;
+	for (i = 0; i + l <= n; ++i) if (!memcmp(d + i, t, l)) return 1;
+	return 0;
+}
+
+/* is the caption title tag complete (F80 repaired)? */
+static int probe_titlelt(void)
+{
+	size_t n = 0; uint8_t *d; int r;
+	page_new(1, 1, 0x41);
+	d = html_alloc("35", 1, 1, 0, 0, 1, 0, 0, &n);
+	r = d && has_sub(d, n, "<title lang");
+	free(d); page_free();
+	return r;
+}
+
+/* is gfx_chr escaped (F81 repaired)? */
+static int probe_gfxesc(void)
+{
+	size_t n = 0; uint8_t *d; int r;
+	page_new(1, 1, 0xEE21);
+	d = html_alloc("60", 1, 0, 0, 0, 0x100, 0, 0, &n);
+	r = d && has_sub(d, n, "&lt;");
+	free(d); page_free();
+	return r;
+}
+
+/* does an italic U+044F render like the upright one (G1 repaired: glyphs without a slanted version are drawn upright)?
+   run in a child: the unrepaired code reads past the font image */
+static int probe_italfont(void)
+{
+	pid_t p; int st = 0;
+	fflush(stdout);
+	p = fork();
+	if (p == 0) {
+		size_t size = 40 * 12 * 10; uint8_t *a, *b; int i, same;
+		int fd = open("/dev/null", O_WRONLY); if (fd >= 0) { dup2(fd, 2); dup2(fd, 1); }
+		page_new(1, 40, 0x44F);
+		a = (uint8_t *) calloc(size, 1); b = (uint8_t *) calloc(size, 1);
+		vbi_draw_vt_page_region(pg, VBI_PIXFMT_PAL8, a, -1, 0, 0, 40, 1, 1, 1);
+		for (i = 0; i < 40; ++i) pg->text[i].italic = 1;
+		vbi_draw_vt_page_region(pg, VBI_PIXFMT_PAL8, b, -1, 0, 0, 40, 1, 1, 1);
+		same = !memcmp(a, b, size);
+		_exit(same ? 0 : 1);
+	}
+	waitpid(p, &st, 0);
+	return WIFEXITED(st) && WEXITSTATUS(st) == 0;
+}
+
+/* ------------------------------------------------------------------ ppm module (header / size modelled, pixel order judged here) */
+static void run_ppm(int aspect)
+{
+	char spec[32], *err = NULL; vbi_export *e; void *dv = NULL; size_t n = 0, hl = 0, i;
+	const uint8_t *d; int cc = pg->columns < 40, cw = cc ? 16 : 12, ch = cc ? 26 : 10, scale = cc ? !!aspect : 1 + !!aspect;
+	size_t W = (size_t) cw * pg->columns, lines = ((size_t) ch << scale) >> 1, rowsz = W * lines * 3; int px = 1, r;
+	snprintf(spec, sizeof spec, "ppm,aspect=%d", aspect);
+	e = vbi_export_new(spec, &err);
+	if (!e) { free(err); printf("rej module\n"); return; }
+	if (!vbi_export_alloc(e, &dv, &n, pg)) { printf("ok fail\n"); vbi_export_delete(e); return; }
+	d = (const uint8_t *) dv;
+	while (hl < n && hl < 64 && d[hl] != '\n') ++hl;
+	if (hl < n) ++hl;
+	if (n != hl + rowsz * pg->rows) px = 0;
+	for (r = 0; px && r < pg->rows; ++r) {
+		uint32_t *c = (uint32_t *) calloc(W * ch, 4); const uint8_t *o = d + hl + rowsz * r; size_t x, y;
+		if (cc) vbi_draw_cc_page_region(pg, VBI_PIXFMT_RGBA32_LE, c, -1, 0, r, pg->columns, 1);
+		else vbi_draw_vt_page_region(pg, VBI_PIXFMT_RGBA32_LE, c, -1, 0, r, pg->columns, 1, /* reveal: !e->reveal */ 1, 1);
+		for (y = 0; px && y < lines; ++y) for (x = 0; x < W; ++x) {
+			uint32_t a, b; unsigned R, G, B;
+			if (scale == 0) { a = c[(2 * y) * W + x]; b = c[(2 * y + 1) * W + x]; }
+			else if (scale == 1) a = b = c[y * W + x];
+			else a = b = c[(y / 2) * W + x];
+			R = ((a & 0xFF) + (b & 0xFF) + 1) >> 1; G = (((a >> 8) & 0xFF) + ((b >> 8) & 0xFF) + 1) >> 1; B = (((a >> 16) & 0xFF) + ((b >> 16) & 0xFF) + 1) >> 1;
+			if (o[(y * W + x) * 3] != R || o[(y * W + x) * 3 + 1] != G || o[(y * W + x) * 3 + 2] != B) { px = 0; break; }
+		}
+		free(c);
+	}
+	printf("ok %zu hdr=", n); h_puthex(d, (int) hl); printf(" px=%d\n", px);
+	(void) i; free(dv); vbi_export_delete(e);
+}
+
 /* ------------------------------------------------------------------ rendering */
 static int fmt_of(const char *s, vbi_pixfmt *f, int *ct)
 {
@@ -433,6 +534,26 @@ int main(void)
 		} else if (H_IS(0, "probe")) {
 			int wc, ng, eb, ao; ops_clear(); wc = probe_wideclip(); ng = probe_nullguard(); eb = probe_e2big(); ao = probe_atone(); ops_clear();
 			printf("ok wideclip=%d nullguard=%d e2big=%d atone=%d\n", wc, ng, eb, ao);
+		} else if (H_IS(0, "probehtml")) {
+			int a, b, c; a = probe_titlelt(); b = probe_gfxesc(); c = probe_italfont();
+			printf("ok titlelt=%d gfxesc=%d italfont=%d\n", a, b, c);
+		} else if (H_IS(0, "htmlexp")) {
+			/* htmlexp <font> <gfx_chr (decimal, two or more digits)> <color> <header> <reveal> <pgno> <subno> <screen>: the html module, modelled */
+			int i, okp = h_ntok == 9;
+			for (i = 0; okp && i < 8; ++i) if (!NUM(i + 1, v[i]) || v[i] < 0) okp = 0;
+			if (!okp || !html_font_ok(v[0]) || v[1] < 10 || v[1] > 99999 || h_tok[2][0] == '0' || v[2] > 1 || v[3] > 1 || v[4] > 1
+			    || v[5] > 0x8FF || v[6] > 0x3F7F || v[7] > 39) printf("rej parse\n");
+			else if (!pg) printf("rej state\n");
+			else {
+				size_t n = 0;
+				uint8_t *d = html_alloc(h_tok[2], (int) v[2], (int) v[3], (int) v[4], (int) v[0], (int) v[5], (int) v[6], (int) v[7], &n);
+				if (d) { printf("ok %zu ", n); h_puthex(d, (int) n); printf("\n"); free(d); }
+				else printf("ok fail\n");
+			}
+		} else if (H_IS(0, "ppmexp")) {
+			if (h_ntok != 2 || !NUM(1, v[0]) || v[0] < 0 || v[0] > 1) printf("rej parse\n");
+			else if (!pg) printf("rej state\n");
+			else run_ppm((int) v[0]);
 		} else if (H_IS(0, "begin")) {
 			if (h_ntok != 5 || !(H_IS(1, "mem") || H_IS(1, "alloc") || H_IS(1, "fp") || H_IS(1, "file") || H_IS(1, "filebad"))
 			    || !(H_IS(2, "null") || (NUM(2, v[0]) && v[0] >= 0 && v[0] <= (1 << 20)))
